@@ -68,15 +68,9 @@ theorem phNet_in (g : Mem) (o0 et o l O L : Nat) (r : Packet) (pay : Pay) (h' : 
     (hr : PacketIn r O L) (hp : PayIn pay O L) (hw : O ≤ o ∧ o + l ≤ O + L)
     (h : phNet g o0 et o l r pay = .ok h') : HeadersIn h' O L := by
   have ipPart : ∀ (ipr : Except PErr IpR), (∀ ip, ipr = .ok ip → IpIn ip o l) →
-      (match ipr with
-        | .error e => (.error (lenAddOff (o - o0) e) : Except PErr Headers)
-        | .ok ip =>
-          match readTransport g ip.pl with
-          | .error e => .error (lenAddOff (ip.pl.w.o - o0) e)
-          | .ok (tp, pay') =>
-            .ok { p := { link := r.link, exts := r.exts, net := some (.ip ip), tp := tp, stop := none },
-                  pay := pay' }) = .ok h' → HeadersIn h' O L := by
+      phIpPart g o0 o r ipr = .ok h' → HeadersIn h' O L := by
     intro ipr hin hh
+    unfold phIpPart at hh
     split at hh
     · contradiction
     · rename_i ip
@@ -90,7 +84,6 @@ theorem phNet_in (g : Mem) (o0 et o l O L : Nat) (r : Packet) (pay : Pay) (h' : 
         · intro x hx; simp at hx; subst hx; exact hip
         · exact this.1
   unfold phNet at h
-  simp only at h
   split at h
   · exact ipPart _ (fun ip hip => ipHeadersV4_in g o l ip hip) h
   · split at h
